@@ -720,6 +720,11 @@ def build_programs(tier):
                 continue
             for n in binary_variants([op_outer], Leaf(k1, (2, 3)), Leaf(k2, (2,))):
                 add(n)
+    # matmul where the product bound of the operands' sizes is TIGHT: (3,1) x (1,3) has 9 = 3 * 3 elements
+    for k1 in (('cs', 'cl', 'fdh') if tier == 'quick' else ('cs', 'cl', 'cla', 'fdf', 'fdh')):
+        for k2 in (('cl',) if tier == 'quick' else ('cs', 'cl', 'fdh')):
+            for n in binary_variants([op_matmul], Leaf(k1, (3, 1)), Leaf(k2, (1, 3))):
+                add(n)
     # where(c, c, y) with a one-element condition: the class of the known finding C11.where-tripled-fixed-size (fdf partner)
     # and its sound neighbours (bounded / constant-shape / dynamic partner)
     for k1, P1 in (('fdf', (1, 1)), ('cs', (1, 1)), ('cs', (1,))):
